@@ -80,7 +80,10 @@ def ev_call(ex, n, st, spec, b):
             pat = z3.MultiPattern(*trigs) if len(trigs) > 1 else trigs[0]
             return z3.ForAll(vs, z3.Implies(z3.And(*rng), body), patterns=[pat])
         if name == "implies":
-            return z3.Implies(boolify(E(n.args[0])), boolify(_guarded(ex, n.args[1], st, spec, b, boolify(E(n.args[0])))))
+            a_ = boolify(E(n.args[0]))
+            if z3.is_false(z3.simplify(a_)):
+                return z3.BoolVal(True)
+            return z3.Implies(a_, boolify(_guarded(ex, n.args[1], st, spec, b, a_)))
         if name == "ite":
             return merge_val(boolify(E(n.args[0])), E(n.args[1]), E(n.args[2]))
         if name == "old":
@@ -280,6 +283,9 @@ def _call_method(ex, base, attr, args, kwargs, st, node, spec, after=None):
             if isinstance(fv, FuncV) and fv.self_val is None and fv.extra is None and w.find_method(base.cls, fv.name):
                 return _call_method(ex, base, fv.name, args, kwargs, st, node, spec)
             return call_value(ex, fv, args, kwargs, st, node, spec), None
+        c0 = w.contract_for(f"{base.cls}.{attr}", ex.cx)
+        if c0 is not None and getattr(c0, "covers_subclasses", False) and after is None:
+            return apply_contract(ex, c0, base, args, kwargs, st, node, spec)
         h = w.method_handler(base.cls, attr)
         if h is not None and after is None:
             r = h(ex, st, base, args, kwargs, node, spec)
@@ -316,6 +322,8 @@ def dispatch_split(ex, base, tag, alts, attr, args, kwargs, st, node, spec):
     results = []
     for mcls, concrete in alts:
         cond = z3.Or(*[tag == w.cls_tag(cn) for cn in concrete])
+        if not ex.feasible(st, cond):
+            continue
         sub = st.copy()
         sub.decide(cond)
         b2 = ObjV(concrete[0] if len(concrete) == 1 else mcls, base.fields)
@@ -326,6 +334,9 @@ def dispatch_split(ex, base, tag, alts, attr, args, kwargs, st, node, spec):
         else:
             r, nb = inline_function(ex, m[1], b2, args, kwargs, sub, node, spec, name=f"{mcls}.{attr}", cls=mcls)
         results.append((cond, r, nb, sub))
+    if not results:
+        st.pc.append(z3.BoolVal(False))
+        return None, None
     # merge
     res = results[-1][1]
     any_mod = any(r[2] is not None for r in results)
